@@ -593,6 +593,56 @@ func scenarioFamily() *family {
 			run.Violate("hist[scenarios].csidh.PrivateKey.Import", "decode-into-used-object-differs", "%x vs %x", ou, of)
 		}
 	})
+	sc("encode-into-used-buffer", func(run *core.Run, imm uint64) {
+		// functions that write an encoding into a buffer of the caller: what they write does
+		// not depend on what the buffer held before (a buffer is reused for the next object)
+		r := core.NewPRNG(imm)
+		type enc struct {
+			name string
+			n    int
+			do   func(out []byte)
+		}
+		var k32 [32]byte
+		copy(k32[:], r.Bytes(32))
+		var gs goldilocks.Scalar
+		gs.FromBytes(r.Bytes(56))
+		gp := goldilocks.Curve{}.ScalarBaseMult(&gs)
+		if imm%3 == 0 {
+			gp = goldilocks.Curve{}.Identity() // x = 0
+		}
+		var fp fourq.Point
+		fp.ScalarBaseMult(&k32)
+		var csk csidh.PrivateKey
+		if csidh.GeneratePrivateKey(&csk, core.NewStream(imm)) != nil {
+			panic("HARNESS: csidh.GeneratePrivateKey")
+		}
+		g1 := new(bls12381.G1)
+		g1.Hash(r.Bytes(8), nil)
+		encs := []enc{
+			{"goldilocks.Point.ToBytes", 57, func(out []byte) {
+				q := *gp
+				if err := q.ToBytes(out); err != nil {
+					panic("HARNESS: ToBytes: " + err.Error())
+				}
+			}},
+			{"fourq.Point.Marshal", 32, func(out []byte) { q := fp; q.Marshal((*[32]byte)(out)) }},
+			{"csidh.PrivateKey.Export", csidh.PrivateKeySize, func(out []byte) { csk.Export(out) }},
+		}
+		for _, e := range encs {
+			clean, used := make([]byte, e.n), make([]byte, e.n)
+			for i := range used {
+				used[i] = 0xff
+			}
+			e.do(clean)
+			e.do(used)
+			run.Fault("history:output-buffer-used-before")
+			if !bytes.Equal(clean, used) {
+				run.Violate("hist[scenarios]."+e.name, "output-depends-on-old-buffer-contents", "into a zeroed buffer %x, into a buffer that held 0xff bytes %x", clean, used)
+				return
+			}
+		}
+		_ = g1
+	})
 	sc("csidh.DeriveSecret(operands)", func(run *core.Run, imm uint64) {
 		var skA, skB csidh.PrivateKey
 		var pkA, pkB csidh.PublicKey
